@@ -809,6 +809,14 @@ type fhCtl struct {
 	fail     map[string]int
 	attempts map[string]int
 	okInit   map[string]int
+	deps     map[string][]string // dependencies that do not depend back (acyclic edges of the variant)
+	viol     []string            // Init ran although such a dependency had not completed its own Init
+}
+
+// the acyclic edges of each variant (diamond: a<->r is a cycle, so neither direction is listed)
+var fhDeps = map[string]map[string][]string{
+	"chain":   {"a": {"b", "c"}, "b": {"c"}},
+	"diamond": {"a": {"l", "z"}, "l": {"z"}, "r": {"z"}},
 }
 
 type fhBase struct {
@@ -821,6 +829,11 @@ func (b *fhBase) Naming() string { return b.name }
 
 func (b *fhBase) Init() error {
 	b.ctl.attempts[b.name]++
+	for _, d := range b.ctl.deps[b.name] {
+		if b.ctl.okInit[d] == 0 {
+			b.ctl.viol = append(b.ctl.viol, b.name+" before "+d)
+		}
+	}
 	if b.ctl.fail[b.name] > 0 {
 		b.ctl.fail[b.name]--
 		return errors.New("init of " + b.name + " fails")
@@ -960,7 +973,7 @@ func genFactoryHistory(r *hx.Rng) *fhHistory {
 func runFactoryHistory(h *fhHistory, tags []string, w *hx.Writer) {
 	syslog.Level(syslog.LvFatal)
 	c := hx.Case{Tags: append(tags, "fh-"+h.variant)}
-	ctl := &fhCtl{fail: map[string]int{}, attempts: map[string]int{}, okInit: map[string]int{}}
+	ctl := &fhCtl{fail: map[string]int{}, attempts: map[string]int{}, okInit: map[string]int{}, deps: fhDeps[h.variant]}
 	for k, v := range h.fail {
 		ctl.fail[k] = v
 	}
@@ -968,10 +981,16 @@ func runFactoryHistory(h *fhHistory, tags []string, w *hx.Writer) {
 	tr := newRegTracer()
 	var results []string
 	apiFail := ""
+	seenSig := map[string]bool{}
 	flag := func(sig, detail string) {
-		if apiFail == "" {
-			apiFail = "FAIL " + sig + " " + detail
+		if seenSig[sig] {
+			return
 		}
+		seenSig[sig] = true
+		if apiFail != "" {
+			apiFail += " ;; "
+		}
+		apiFail += "FAIL " + sig + " " + detail
 	}
 	pan := hx.Guard(func() {
 		a := app.NewApp()
@@ -1021,6 +1040,9 @@ func runFactoryHistory(h *fhHistory, tags []string, w *hx.Writer) {
 				flag("factory-recreated", fmt.Sprintf("Init of %s succeeded %d times / ran after success", n, ctl.okInit[n]))
 			}
 		}
+		if len(ctl.viol) > 0 {
+			flag("factory-deps-first", "Init ran before a dependency that does not depend back had completed its Init: "+strings.Join(ctl.viol, "; "))
+		}
 		if anyFail {
 			c.Tags = append(c.Tags, "failed-creation")
 		}
@@ -1041,6 +1063,8 @@ func runFactoryHistory(h *fhHistory, tags []string, w *hx.Writer) {
 	c.Oracle = tr.orc.verdict()
 	if c.Oracle == "" {
 		c.Oracle = apiFail
+	} else if apiFail != "" {
+		c.Oracle += " ;; " + apiFail // both the protocol-level (C04) and the API-level (C05) verdicts are reported
 	}
 	w.Put(c)
 }
